@@ -253,7 +253,7 @@ def _lower(ctx, W, cls, attrs, version=10, **kw):
 
 def r05_3_literal_op_lists(ctx):
     ctx.rule("R05.3", "every hand-written op list leaves exactly what its construct declares: WideRatio n x m factors -> one uint64; Suffix -> one bytes value; DupN(rep) -> rep+1 copies; frame layout -> one typed zero per local; MultiValue stores consume every output, last output on top")
-    W = World(ctx.model)
+    W = World(ctx.model, real_exprs=True)
     # ---- WideRatio
     maxn = 3 if ctx.tier == "quick" else 5
     for n, m in itertools.product(range(1, maxn + 1), repeat=2):
